@@ -53,6 +53,58 @@ def _cong_join(x, y):
     return (m, r1 % m)
 
 
+def _fm_infeasible(ges, max_rows=400):
+    """Fourier-Motzkin over the rationals: is { L >= 0 for L in ges } unsatisfiable?  Atoms are opaque
+    variables.  Returns True only when a contradiction (negative constant >= 0) is derived."""
+    rows = []
+    for L in ges:
+        if L.is_const():
+            if L.c < 0:
+                return True
+            continue
+        rows.append(L)
+    for _ in range(24):
+        # pick the variable occurring in the fewest rows
+        occ = {}
+        for L in rows:
+            for a, k in L.t:
+                occ.setdefault(a, [0, 0])
+                occ[a][0 if k > 0 else 1] += 1
+        if not occ:
+            break
+        a = min(occ, key=lambda x: (occ[x][0] * occ[x][1], repr(x)))
+        pos = [L for L in rows if L.coeff(a) > 0]
+        neg = [L for L in rows if L.coeff(a) < 0]
+        rest = [L for L in rows if L.coeff(a) == 0]
+        new = []
+        for P in pos:
+            kp = P.coeff(a)
+            for N in neg:
+                kn = -N.coeff(a)
+                R = P.scale(kn) + N.scale(kp)
+                if R.is_const():
+                    if R.c < 0:
+                        return True
+                    continue
+                # normalise by gcd of coefficients
+                g = 0
+                from math import gcd
+                for _, k in R.t:
+                    g = gcd(g, abs(k))
+                if g > 1:
+                    # floor division keeps soundness for integers: Σ k x + c >= 0  =>  Σ (k/g) x + floor(c/g) >= 0
+                    R = Lin(R.c // g, [(t, k // g) for t, k in R.t])
+                if R not in new and R not in rest:
+                    new.append(R)
+        rows = rest + new
+        if len(rows) > max_rows:
+            return False
+    for L in rows:
+        if L.is_const() and L.c < 0:
+            return True
+    return False
+
+
 class Facts:
     """a set of assumed conditions, normalised to  L >= 0 (ge),  L == 0 (eq),  L != 0 (ne)"""
 
@@ -99,6 +151,20 @@ class Facts:
             c = self.cong_atom(a)
             if c is not None:
                 return c
+        # an assumed equality  ±a + rest == 0  transfers the congruence of -rest to a
+        if depth < 4:
+            best = None
+            for e in self.eq:
+                k = e.coeff(a)
+                if k in (1, -1):
+                    rest = (e - atom(a).scale(k)).scale(-k)
+                    if any(x == a for x in rest.atoms()):
+                        continue
+                    c = self.cong(rest, depth + 3)
+                    if best is None or (c[0] == 0) or (best[0] != 0 and c[0] > best[0]):
+                        best = c
+            if best is not None and (best[0] == 0 or best[0] > 1):
+                return best
         k = a[0]
         if k == "alignup":
             A = a[2]
@@ -130,6 +196,10 @@ class Facts:
     def add(self, c):
         if c == TRUE:
             return
+        if c == FALSE:
+            self.ge.append(Lin(-1))  # contradiction
+            self.raw.append(c)
+            return
         self.raw.append(c)
         k = c[0]
         if k == "and":
@@ -146,7 +216,15 @@ class Facts:
         pred, a, b = c[1], c[2], c[3]
         d = b - a
         if pred == "eq":
-            (self.ne if neg else self.eq).append(a - b)
+            L = a - b
+            # divide by the gcd of the coefficients (8*q - 8*n + 8 == 0  <=>  q - n + 1 == 0)
+            from math import gcd
+            g = 0
+            for _, k in L.t:
+                g = gcd(g, abs(k))
+            if g > 1 and L.c % g == 0:
+                L = Lin(L.c // g, [(t, k // g) for t, k in L.t])
+            (self.ne if neg else self.eq).append(L)
         elif pred in ("ult", "slt"):
             if neg:  # !(a < b)  ->  a - b >= 0
                 self.ge.append(a - b)
@@ -155,32 +233,122 @@ class Facts:
                 self.ne.append(d)
 
     # ------------------------------------------------------------------------------------------
+    def _system(self, extra=()):
+        """all >= 0 rows: assumed inequalities, both directions of unsubstituted equalities, atom >= 0 for
+        the atoms that occur, AlignUp bounds"""
+        rows = [self.apply_sub(g) for g in self.ge] + [self.apply_sub(x) for x in extra]
+        for e in self.eq:
+            e2 = self.apply_sub(e)
+            if not e2.is_const() or e2.c != 0:
+                rows.append(e2)
+                rows.append(-e2)
+        # L != 0 for an evidently non-negative / non-positive form strengthens to |L| >= 1
+        for n in self.ne:
+            n2 = self.apply_sub(n)
+            if n2.is_const():
+                continue
+            if self._all_nonneg(n2):
+                rows.append(n2 - 1)
+            elif self._all_nonneg(-n2):
+                rows.append(-n2 - 1)
+        # an eliminated atom is an unsigned quantity too: its replacement is >= 0
+        for a, r in self.submap().items():
+            if a[0] != "unk":
+                rows.append(r)
+        atoms = set()
+        for L in rows:
+            for a, _ in L.t:
+                atoms.add(a)
+        for a in list(atoms):
+            if a[0] == "unk":
+                continue
+            rows.append(atom(a))  # unsigned quantity
+            if a[0] == "alignup":
+                rows.append(atom(a) - a[1])  # AlignUp(z) >= z
+                rows.append(a[1] + (a[2] - 1) - atom(a))  # AlignUp(z) <= z + A - 1
+                for b, _ in a[1].t:
+                    if b not in atoms and b[0] != "unk":
+                        rows.append(atom(b))
+        return rows
+
+    def saturate(self):
+        """turn inequalities that the other facts force to equality into equalities (so that they take part
+        in the substitution): g >= 0 assumed and -g >= 0 implied  =>  g == 0"""
+        changed = False
+        for g in list(self.ge):
+            g2 = self.apply_sub(g)
+            if g2.is_const():
+                continue
+            if g2 in self.eq or (-g2) in self.eq:
+                continue
+            # cheap pre-filter: only small forms
+            if len(g2.t) > 3:
+                continue
+            if _fm_infeasible(self._system(extra=[g2 - 1])):
+                self.eq.append(g2)
+                self._submap_n = None
+                changed = True
+        return changed
+
+    def infeasible(self):
+        """the assumed facts contradict each other (linear reasoning; ne facts via forced equality)"""
+        rows = self._system()
+        if _fm_infeasible(rows):
+            return True
+        for n in self.ne:
+            n2 = self.apply_sub(n)
+            if n2.is_const():
+                if n2.c == 0:
+                    return True
+                continue
+            if _fm_infeasible(rows + [n2 - 1]) and _fm_infeasible(rows + [-n2 - 1]):
+                return True
+        return False
+
     def nonneg(self, L):
         L = self.apply_sub(L)
-        return self._nonneg(L, [self.apply_sub(g) for g in self.ge])
+        if self._nonneg(L, [self.apply_sub(g) for g in self.ge]):
+            return True
+        # L >= 0 is implied iff facts ∧ (L <= -1) is infeasible
+        return _fm_infeasible(self._system(extra=[-L - 1]))
+
+    @staticmethod
+    def _all_nonneg(t, depth=0):
+        """c + Σ k·atom with c, k >= 0 (every atom denotes an unsigned quantity) is non-negative.
+        z <= AlignUp(z, A) <= z + A - 1 is used, one atom at a time, to cancel mixed signs."""
+        if t.c >= 0 and all(k >= 0 and a[0] != "unk" for a, k in t.t):
+            return True
+        if depth > 4:
+            return False
+        for a, k in t.t:
+            if a[0] != "alignup":
+                continue
+            bound = a[1] if k > 0 else a[1] + (a[2] - 1)
+            t2 = t - atom(a).scale(k) + bound.scale(k)
+            if Facts._all_nonneg(t2, depth + 1):
+                return True
+        return False
 
     def _nonneg(self, L, cands):
         """is L >= 0 implied?  (L const, or L = Σ λ_i·ge_i + c with λ_i, c >= 0, using up to two facts;
         equalities may be added with any sign)"""
-        if L.is_const():
-            return L.c >= 0
+        if self._all_nonneg(L):
+            return True
         for g in cands:
             for lam in (1, 2, 4, 8):
                 r = L - g.scale(lam)
                 r = self._mod_eq(r)
-                if r.is_const() and r.c >= 0:
+                if self._all_nonneg(r):
                     return True
         for i, g in enumerate(cands):
             for h in cands[i:]:
                 for l1 in (1, 2, 4, 8):
                     for l2 in (1, 2, 4, 8):
                         r = self._mod_eq(L - g.scale(l1) - h.scale(l2))
-                        if r.is_const() and r.c >= 0:
+                        if self._all_nonneg(r):
                             return True
         r = self._mod_eq(L)
-        if r.is_const():
-            return r.c >= 0
-        return False
+        return self._all_nonneg(r)
 
     def _mod_eq(self, L):
         """reduce L using the equalities (single pass: eliminate one atom per equality)"""
@@ -216,7 +384,13 @@ class Facts:
                 continue
             a, k = max(unit, key=lambda ak: repr(ak[0]))
             rest = e2 - atom(a).scale(k)
-            sub[a] = rest.scale(-k)  # k*a + rest = 0  ->  a = -rest/k  (k = +-1)
+            val = rest.scale(-k)  # k*a + rest = 0  ->  a = -rest/k  (k = +-1)
+            # keep the map idempotent: earlier replacements must not mention the atom eliminated now
+            for b in list(sub):
+                kb = sub[b].coeff(a)
+                if kb:
+                    sub[b] = sub[b] - atom(a).scale(kb) + val.scale(kb)
+            sub[a] = val
         self._submap = sub
         self._submap_n = len(self.eq)
         return sub
@@ -466,8 +640,22 @@ def case_split(terms, facts, max_cases=64):
                     if leaf not in conds and facts.decide(leaf) is None:
                         conds.append(leaf)
 
+    def collect_cond(c):
+        k = c[0]
+        if k == "not":
+            collect_cond(c[1])
+        elif k in ("and", "or"):
+            for x in c[1:]:
+                collect_cond(x)
+        elif k == "cmp":
+            collect(c[2])
+            collect(c[3])
+
     for t in terms:
-        collect(t)
+        if isinstance(t, Lin):
+            collect(t)
+        elif isinstance(t, tuple):
+            collect_cond(t)
     conds = conds[:6]
     n = len(conds)
     for mask in range(1 << n):
@@ -479,5 +667,6 @@ def case_split(terms, facts, max_cases=64):
                 ok = False
                 break
             f.add(lit)
-        if ok:
+        if ok and not f.infeasible():
+            f.saturate()
             yield f
